@@ -127,3 +127,11 @@ pub broadcast axiom fn ax_eq_ignore_case_refl(a: Seq<char>) ensures #[trigger] e
 pub assume_specification<'a, 'b> [ str::eq_ignore_ascii_case ] (a: &'a str, b: &'b str) -> (r: bool)
     ensures r == eq_ignore_case(a@, b@);
 } // verus!
+verus! {
+/// `str::to_lowercase` / `to_uppercase` / `to_ascii_lowercase`: abstract functions of the string (nothing else is known)
+pub uninterp spec fn lower_of(a: Seq<char>) -> Seq<char>;
+pub uninterp spec fn upper_of(a: Seq<char>) -> Seq<char>;
+pub assume_specification [ str::to_lowercase ] (a: &str) -> (r: String) ensures r@ == lower_of(a@);
+pub assume_specification [ str::to_uppercase ] (a: &str) -> (r: String) ensures r@ == upper_of(a@);
+pub assume_specification [ str::to_ascii_lowercase ] (a: &str) -> (r: String) ensures r@ == lower_of(a@);
+} // verus!
